@@ -152,19 +152,26 @@ package usermanager
 // writeUserInfoHlr: the record is written only for a request that decoded, whose UID in the path equals
 // the UID in the body, and that has not already been answered with an error.
 //@ func (*APIRouter).writeUserInfoHlr
+//@   # the UID in the path is base64 in the URL-safe alphabet (what the panel, the README and the other handlers use)
+//@   atcall DecodeString requires urlSafeAlphabet: callrecv.(*base64.Encoding) == base64.URLEncoding
 //@   requires ar != nil && ar.manager != nil && r != nil && w != nil
 //@   atcall WriteUserInfo requires decoded: succeeded("(*encoding/json.Decoder).Decode") && succeeded("(*encoding/base64.Encoding).DecodeString")
 //@   atcall WriteUserInfo requires uidMatches: bytesEq(UID, uinfo.UID)
 //@   atcall WriteUserInfo requires notAlreadyRejected: !called("net/http.Error")
 //@   ensures rejectedChangesNothing: !called("(UserManager).WriteUserInfo") ==> dbSame()
 //@   flag noframe
+//@ import "encoding/base64"
 //@ func (*APIRouter).deleteUserHlr
+//@   # the UID in the path is base64 in the URL-safe alphabet (what the panel, the README and the other handlers use)
+//@   atcall DecodeString requires urlSafeAlphabet: callrecv.(*base64.Encoding) == base64.URLEncoding
 //@   requires ar != nil && ar.manager != nil && r != nil && w != nil
 //@   atcall DeleteUser requires decoded: succeeded("(*encoding/base64.Encoding).DecodeString")
 //@   atcall DeleteUser requires notAlreadyRejected: !called("net/http.Error")
 //@   ensures rejectedChangesNothing: !called("(UserManager).DeleteUser") ==> dbSame()
 //@   flag noframe
 //@ func (*APIRouter).getUserInfoHlr
+//@   # the UID in the path is base64 in the URL-safe alphabet (what the panel, the README and the other handlers use)
+//@   atcall DecodeString requires urlSafeAlphabet: callrecv.(*base64.Encoding) == base64.URLEncoding
 //@   requires ar != nil && ar.manager != nil && r != nil && w != nil
 //@   ensures readOnly: dbSame()
 //@   flag noframe
